@@ -484,15 +484,20 @@ def r2(ctx):
         ctx.ob("C06.R2", f"UDPPacket.{prop} is direction == {member}", ok, f.where)
     fa = ucls.methods.get("far_addr")
     ctx.require(fa is not None, "UDPPacket.far_addr vanished")
-    for r in [r for r in walk(fa.node) if isinstance(r, ast.Return)]:
-        og = path_fact(r, "self.outgoing", fa.node)
-        ic = path_fact(r, "self.incoming", fa.node)
-        out_side = og is True or ic is False
-        in_side = og is False or ic is True
-        ctx.require(out_side or in_side, "UDPPacket.far_addr: return not classified by direction")
-        want = "self.dst_addr" if out_side else "self.src_addr"
-        ctx.ob("C06.R2", f"UDPPacket.far_addr[{'OUT' if out_side else 'IN'}] is {want}", ap(r.value) == want, ctx.w(fa, r),
-               f"returns {norm(r.value)}")
+    def leaves(e):
+        if isinstance(e, ast.IfExp):
+            return leaves(e.body) + leaves(e.orelse)
+        return [e]
+    for r in [r for r in walk(fa.node) if isinstance(r, ast.Return) and r.value is not None]:
+        for leaf in leaves(r.value):
+            og = path_fact(leaf, "self.outgoing", fa.node)
+            ic = path_fact(leaf, "self.incoming", fa.node)
+            out_side = og is True or ic is False
+            in_side = og is False or ic is True
+            ctx.require(out_side or in_side, "UDPPacket.far_addr: return not classified by direction")
+            want = "self.dst_addr" if out_side else "self.src_addr"
+            ctx.ob("C06.R2", f"UDPPacket.far_addr[{'OUT' if out_side else 'IN'}] is {want}", ap(leaf) == want, ctx.w(fa, r),
+                   f"returns {norm(leaf)}")
     check_invert(ctx, "C06.R2")
 
     # Circuit.send_datagram swaps by direction
@@ -564,22 +569,7 @@ def r2(ctx):
         if r.value is None or (isinstance(r.value, ast.Constant) and r.value.value is None):
             continue
         nret += 1
-        val = r.value
-        if isinstance(val, ast.Name) and single_assign(rb.node, val.id) is not None:
-            val = single_assign(rb.node, val.id)
-        anchor, v = r, ap(val)
-        # `next((region for region in ... if <filter>), None)`: the filters are the facts of the yielded element
-        if isinstance(val, ast.Call) and ap(val.func) == "next" and val.args:
-            gen = val.args[0]
-            if isinstance(gen, ast.Name) and single_assign(rb.node, gen.id) is not None:
-                gen = single_assign(rb.node, gen.id)
-            dflt = val.args[1] if len(val.args) > 1 else None
-            if not (isinstance(gen, ast.GeneratorExp) and isinstance(gen.elt, ast.Name)
-                    and isinstance(dflt, ast.Constant) and dflt.value is None):
-                raise AnalysisError(f"region_by_circuit_addr: unsupported result {norm(r.value)}")
-            anchor, v = gen.elt, gen.elt.id
-        elif v is None:
-            raise AnalysisError(f"region_by_circuit_addr: unsupported result {norm(r.value)}")
+        anchor, v, _ = selected_element(rb, r)
         ok = equal_fact(anchor, {f"{v}.circuit_addr", rparam}, rb.node, ap) is True
         ctx.ob("C06.R2", "region_by_circuit_addr returns a region only when its circuit_addr equals the argument", ok, ctx.w(rb, r),
                "a datagram could be attributed to another simulator's region")
@@ -598,6 +588,27 @@ def r2_identity(ctx):
                "circuit_addr of an existing region is reassigned: its circuit still talks to the old simulator "
                "address while datagrams from the new address are attributed to it (and the old address loses its region)")
     ctx.floor("C06.R2", "circuit_addr writers (region constructors)", n, 2)
+
+
+def selected_element(fn: FuncInfo, r: ast.Return) -> Tuple[ast.AST, Optional[str], Optional[str]]:
+    """For `return x`: (node whose facts describe the returned object, its name there, its name at the return).
+    `x = next((c for c in xs if <filters>), None)` is described by the generator element under its filters."""
+    val = r.value
+    outer = ap(val)
+    if isinstance(val, ast.Name) and single_assign(fn.node, val.id) is not None:
+        val = single_assign(fn.node, val.id)
+    if isinstance(val, ast.Call) and ap(val.func) == "next" and val.args:
+        gen = val.args[0]
+        if isinstance(gen, ast.Name) and single_assign(fn.node, gen.id) is not None:
+            gen = single_assign(fn.node, gen.id)
+        dflt = val.args[1] if len(val.args) > 1 else None
+        if not (isinstance(gen, ast.GeneratorExp) and isinstance(gen.elt, ast.Name)
+                and isinstance(dflt, ast.Constant) and dflt.value is None):
+            raise AnalysisError(f"{fn.qual}: unsupported result {norm(r.value)}")
+        return gen.elt, gen.elt.id, outer
+    if ap(val) is None:
+        raise AnalysisError(f"{fn.qual}: unsupported result {norm(r.value)}")
+    return r, ap(val), outer
 
 
 def equal_fact(node, sides: set, stop, key) -> Optional[bool]:
@@ -759,6 +770,48 @@ def r3(ctx):
     rets = [r for r in walk(vm.node) if isinstance(r, ast.Return)]
     falsy = [r for r in rets if r.value is None or not (isinstance(r.value, ast.Constant) and bool(r.value.value))]
     ctx.ob("C06.R3", "validate_udp_msg can refuse a message", len(falsy) >= 1, vm.where, "the ban predicate is constantly true")
+    # the verdict is the message.xml flavor and nothing else: True only for unknown messages or flavor == 'template'
+    mname = msg_param(vm)
+
+    def is_flavor_test(e) -> bool:
+        if not (isinstance(e, ast.Compare) and len(e.ops) == 1 and isinstance(e.ops[0], ast.Eq)):
+            return False
+        l, r_ = e.left, e.comparators[0]
+        for a_, b_ in ((l, r_), (r_, l)):
+            if isinstance(b_, ast.Constant) and b_.value == "template" and \
+                    any(isinstance(n_, ast.Constant) and n_.value == "flavor" for n_ in ast.walk(a_)):
+                return True
+        return False
+
+    def unknown_fact(node) -> bool:
+        for e, pol in facts(node, vm.node):
+            if isinstance(e, ast.Compare) and len(e.ops) == 1 and ap(e.left) == mname and \
+                    (ap(e.comparators[0]) or "").endswith(".messages"):
+                if (isinstance(e.ops[0], ast.In) and not pol) or (isinstance(e.ops[0], ast.NotIn) and pol):
+                    return True
+            nt = is_none_test(e)
+            if nt and "." not in nt[0] and ((nt[1] and pol) or (not nt[1] and not pol)):
+                v_ = single_assign(vm.node, nt[0])
+                if isinstance(v_, ast.Call) and (ap(v_.func) or "").endswith(".messages.get") and v_.args and ap(v_.args[0]) == mname:
+                    return True
+        return False
+
+    def leaves(e):
+        if isinstance(e, ast.IfExp):
+            return leaves(e.body) + leaves(e.orelse)
+        return [e]
+    for r in rets:
+        for leaf in (leaves(r.value) if r.value is not None else []):
+            if isinstance(leaf, ast.Constant) and not leaf.value:
+                continue
+            templ = any(is_flavor_test(e) and pol for e, pol in facts(leaf, vm.node))
+            if isinstance(leaf, ast.Constant):
+                ok = templ or unknown_fact(leaf)
+            else:
+                ok = is_flavor_test(leaf)
+            ctx.ob("C06.R3", "validate_udp_msg allows a message only when message.xml does not know it or its flavor is 'template'",
+                   ok, ctx.w(vm, r), f"`{norm(r)}` can allow a message that message.xml lists with a non-template "
+                   f"flavor (banned from UDP): it is forwarded instead of discarded")
 
 
 def r3_claim(ctx):
@@ -772,21 +825,33 @@ def r3_claim(ctx):
     for r in [r for r in walk(cs.node) if isinstance(r, ast.Return)]:
         if r.value is None or (isinstance(r.value, ast.Constant) and r.value.value is None):
             continue
-        v = ap(r.value)
-        if v is None:
-            raise AnalysisError(f"claim_session: unsupported result {norm(r.value)}")
+        anchor, inner, v = selected_element(cs, r)
+        v = v or inner
         nret += 1
         ctx.ob("C06.R3", "claim_session hands out a session only while it is pending",
-               path_fact(r, f"{v}.pending", cs.node) is True, ctx.w(cs, r),
+               path_fact(anchor, f"{inner}.pending", cs.node) is True, ctx.w(cs, r),
                "an already claimed session is returned again: a second UDP association attaches to a session that "
                "belongs to another viewer connection")
         ctx.ob("C06.R3", "claim_session hands out the session with the requested id",
-               equal_fact(r, {f"{v}.id", sid}, cs.node, ap) is True, ctx.w(cs, r))
-        clears = [n for st in stores(cs.node) if st.path == f"{v}.pending" and isinstance(st.value, ast.Constant)
-                  and st.value.value is False for n in cfg.nodes_for(st.node)]
-        reach = cfg.reachable([cfg.entry], avoid=lambda n: n in clears)
-        ctx.ob("C06.R3", "claim_session clears `pending` before returning the session",
-               bool(clears) and not any(n in reach for n in cfg.nodes_for(r)), ctx.w(cs, r),
+               equal_fact(anchor, {f"{inner}.id", sid}, cs.node, ap) is True, ctx.w(cs, r))
+        # path form: on every path that returns an actual session (not None) `pending` was cleared before
+        class Claim(Explorer):
+            def on_stmt(self, s_, st_):
+                if isinstance(s_, (ast.Assign, ast.AugAssign, ast.AnnAssign, ast.Expr)):
+                    for sto in stores(s_, into_defs=False):
+                        if sto.path == f"{v}.pending" and isinstance(sto.value, ast.Constant) and sto.value.value is False:
+                            st_.data["cleared"] = True
+                return None
+        uncleared = False
+        for kind, node, st_ in Claim().explore(cs.node.body, St(data={"cleared": False})):
+            if kind != "return" or node is not r:
+                continue
+            isnone = tv(ast.Compare(left=ast.Name(id=v, ctx=ast.Load()), ops=[ast.Is()], comparators=[ast.Constant(value=None)]), st_)
+            if isnone is True or tv(ast.Name(id=v, ctx=ast.Load()), st_) is False:
+                continue
+            if not st_.data["cleared"]:
+                uncleared = True
+        ctx.ob("C06.R3", "claim_session clears `pending` before returning the session", not uncleared, ctx.w(cs, r),
                "the session stays pending: the next association can claim it as well")
     ctx.ob("C06.R3", "claim_session can hand out a session", nret >= 1, cs.where, "no viewer can ever attach")
 
